@@ -391,7 +391,14 @@ class Executor2(Executor):
         or by a bare `except:`.  `finally` is not supported."""
         if s.finalbody:
             raise Unsupported("try/finally at line %d" % s.lineno)
-        normal, exits = self.exec_block(s.body, [st])
+        catches_te = self._find_handler(s.handlers, "TypeError") is not None
+        if catches_te:
+            self.typeerror_caught += 1
+        try:
+            normal, exits = self.exec_block(s.body, [st])
+        finally:
+            if catches_te:
+                self.typeerror_caught -= 1
         out_exits = []
         handler_states = []
         for x in exits:
